@@ -107,6 +107,10 @@ pub enum ApiKind {
     Std,
     Bech32,
     Bech32m,
+    /// a user-written codec for a chain whose addresses are plain case-sensitive strings (any non-empty string is an
+    /// address, canonical form = its bytes); such a chain is built with the address generator `PlainNames`, whose
+    /// addresses differ in letter case only, are prefixes of one another, or contain separators
+    Plain,
 }
 
 pub const PREFIX: &str = "cosmwasm";
@@ -118,6 +122,7 @@ impl ApiKind {
             ApiKind::Std => MockApi::default().addr_canonicalize(s).ok().map(|c| c.to_vec()),
             ApiKind::Bech32 => CheckedHrpstring::new::<bech32::Bech32>(s).ok().filter(|h| h.hrp().to_string() == PREFIX).map(|h| h.byte_iter().collect()),
             ApiKind::Bech32m => CheckedHrpstring::new::<bech32::Bech32m>(s).ok().filter(|h| h.hrp().to_string() == PREFIX).map(|h| h.byte_iter().collect()),
+            ApiKind::Plain => Some(s.as_bytes().to_vec()).filter(|b| !b.is_empty()),
         }
     }
 
@@ -127,6 +132,7 @@ impl ApiKind {
             ApiKind::Std => MockApi::default().addr_humanize(&canon.to_vec().into()).ok().map(|a| a.to_string()),
             ApiKind::Bech32 => bech32::encode::<bech32::Bech32>(hrp, canon).ok(),
             ApiKind::Bech32m => bech32::encode::<bech32::Bech32m>(hrp, canon).ok(),
+            ApiKind::Plain => String::from_utf8(canon.to_vec()).ok().filter(|s| !s.is_empty()),
         }
     }
 
@@ -140,6 +146,15 @@ impl ApiKind {
     }
 
     pub fn addr_make(&self, name: &str) -> String {
+        if *self == ApiKind::Plain {
+            // users whose names differ in letter case only
+            return match name {
+                "user0" => "Trader".to_string(),
+                "user1" => "trader".to_string(),
+                "user2" => "TRADER".to_string(),
+                other => other.to_string(),
+            };
+        }
         self.humanize(&Sha256::digest(name.as_bytes())).unwrap()
     }
 }
@@ -209,7 +224,25 @@ pub fn wrap_instantiate(addr: &str, data: Option<Vec<u8>>) -> Vec<u8> {
 
 // --- addresses -------------------------------------------------------------------------------------
 
+/// What the address generator `PlainNames` hands to the instance with this number.
+pub fn plain_contract_name(instance: u64) -> String {
+    match instance {
+        0 => "Vault".to_string(),
+        1 => "vault".to_string(),
+        2 => "VAULT".to_string(),
+        3 => "vault/".to_string(),
+        4 => "vaul".to_string(),
+        5 => "vault\u{1}".to_string(),
+        6 => "contract_data/vault".to_string(),
+        7 => "vaulT".to_string(),
+        n => format!("{}{}", if n % 2 == 0 { "Pool" } else { "pool" }, n / 2),
+    }
+}
+
 pub fn classic_address(api: ApiKind, code_id: u64, instance: u64) -> String {
+    if api == ApiKind::Plain {
+        return plain_contract_name(instance);
+    }
     let mut key = b"wasm\0".to_vec();
     key.extend_from_slice(&code_id.to_be_bytes());
     key.extend_from_slice(&instance.to_be_bytes());
